@@ -146,6 +146,39 @@ PROPS["C20"] = {
     "level_note": "Trusted: pyvc, z3 and the environment contracts above; that __exit__ runs however the with-body is left is the language "
                   "guarantee. Multi-process pools (manager list shared with children) and FilePool.open are covered by the bounded layer only.",
 }
+PROPS["C11"] = {
+    "units": ["contracts.c11_linefiles", "contracts.c11_linefiles:unit_mmap"],
+    "bounded": True,
+    "level": "other",
+    "trusted_base": ["pyvc VC generator (/verif/pyvc)", "z3", "Python semantics as listed in DESIGN.md §2.3",
+                     "file model at line granularity (DESIGN §4): open / readline / seek / tell / mmap / rstrip / decode, os.getpid"],
+    "explanation": "Deductive (unbounded in file content and index): for RandomLineAccessFile and MemoryMappedRandomLineAccessFile - _index_file builds "
+                   "exactly the line starts (len = number of lines incl. an unterminated last line, empty file = 0), a caller-supplied index of "
+                   "line starts (subset / permutation) is honoured, f[i] (positive and negative int) is the i-th line of the index without its "
+                   "terminator, iteration yields the same sequence as indexing even when the shared cursor is moved arbitrarily at every yield "
+                   "(interleaved random accesses / second iteration), and both variants have the same postconditions (hence agree). "
+                   "Bounded only: slice and iterable selectors (list comprehension over a stateful call), the index-file constructor, the "
+                   "mutable and record subclasses while unmodified, long lines / multi-byte UTF-8 at byte level (the env model is at line level).",
+    "level_text": "Proof over a line-level file model for the two read-only classes; bounded enumeration of small contents x classes x index "
+                  "sources x interleavings for the rest.",
+    "level_note": "The file model (readline at a line start returns that line; text mode newline='\\n' and binary/mmap split on \\n only) is an assumed "
+                  "environment contract, conformance-tested by the bounded layer on real files.",
+}
+PROPS["C18"] = {
+    "units": ["contracts.c11_linefiles", "contracts.c11_linefiles:unit_mmap", "contracts.c11_linefiles:unit_mapaccess"],
+    "bounded": True,
+    "level": "proof",
+    "trusted_base": ["pyvc VC generator (/verif/pyvc)", "z3", "file / process environment contracts (DESIGN §4): a handle's owner is the pid that "
+                     "opened it, os.getpid() constant within a call, every open() yields its own open file description, fork shares descriptions "
+                     "opened before it"],
+    "level_text": "For an ARBITRARY current pid and an object state possibly inherited from another process, every seek / readline on the file or "
+                  "mmap handle of RandomLineAccessFile, MemoryMappedRandomLineAccessFile and MapAccessFile is proved to happen on a handle whose "
+                  "owner is the current process (obligation owner@call at each use; class invariant: pid recorded iff open, handle owned by the "
+                  "recorded pid; reopen_if_needed re-establishes ownership). With every process reading through a description it opened itself, "
+                  "no read position is shared, so schedule independence is the OS assumption, not a VC.",
+    "level_note": "Ownership is proved; that distinct open file descriptions do not interfere is the environment assumption. Stress runs with "
+                  "forked children (bounded layer) are a stand-in only.",
+}
 
 # properties not claimed, with the reason (everything else not in PROPS gets the generic "not built yet" reason)
 NOT_APPLICABLE = {}
